@@ -60,6 +60,8 @@ private:
 };
 
 std::string legacy_id(const std::string &name);
+// payload with optional machine id, sequence number and request time (-1 = absent), padded the way the SDK pads
+std::string metadata_payload_full(const std::string &client_id, const std::string &machine_id, int64_t seq, int64_t req_time);
 std::string metadata_payload(const std::string &client_id, bool padded);
 
 // ---- parsed views used by RefVerify
@@ -75,7 +77,7 @@ struct SigView {
 	std::string cal_raw, pub_raw, auth_raw;
 };
 bool parse_signature(const std::string &bytes, SigView &v);
-bool parse_agg_chain(const Tlv &t, AggChain &c);
+bool parse_agg_chain(const Tlv &t, AggChain &c, bool partial = false);
 bool parse_cal_chain(const Tlv &t, CalChain &c);
 
 struct SigFacts {
